@@ -1,5 +1,5 @@
 From Coq Require Import ZArith List Bool.
-From RV Require Import Base.Wire Base.Text Lang.Rx Lang.Lex Lang.PyLayout Lang.Layout Lang.DispatchSpec Lang.EmitBlocks Lang.LineShapes Lang.LineDispatch Lang.Promote Lang.EmitStmt Gen.LineRx.
+From RV Require Import Base.Wire Base.Text Lang.Rx Lang.Lex Lang.PyLayout Lang.Layout Lang.DispatchSpec Lang.EmitBlocks Lang.LineShapes Lang.LineDispatch Lang.Promote Lang.EmitStmt Lang.TopFlow Gen.LineRx.
 Import ListNotations.
 Open Scope Z_scope.
 
@@ -329,6 +329,32 @@ Definition run (v : wv) : wv :=
   | WL [WI 5; ls] =>
       match un_texts ls with
       | Some lines => wok [WL (map (fun e => match e with (sc, d, sn) => WL [WI sc; wnat d; wtexts sn] end) (call_trace lines))]
+      | None => wbad end
+  | WL [WI 24; ls] =>
+      (* parse() with the seen_main_loop flag: accepted?, the calls made before the rejection (or all of them),
+         the variant segment of every def taken, position of the main loop among the items *)
+      match un_texts ls with
+      | Some lines =>
+          let enc_calls := fun cs => WL (map (fun e => match e with (sc, d, sn) => WL [WI sc; wnat d; wtexts sn] end) cs) in
+          wok [wbool (match parse_flow lines with Some _ => true | None => false end);
+               enc_calls (flow_trace lines);
+               WL (map enc_calls (variant_segments lines));
+               WL (map (fun it => wbool (is_loop it)) (flow_prefix (S (length lines)) false lines))]
+      | None => wbad end
+  | WL [WI 25; ls; WL real] =>
+      (* is the observed call trace the script's own trace with variant segments of its defs inserted? *)
+      match un_texts ls with
+      | Some lines =>
+          let dec_call := fun w => match w with
+                                   | WL [WI sc; d; sn] => match un_nat d, un_texts sn with
+                                                          | Some d', Some sn' => Some (sc, d', sn')
+                                                          | _, _ => None end
+                                   | _ => None end in
+          let real' := flat_map (fun w => match dec_call w with Some c => [c] | None => [] end) real in
+          if (length real' =? length real)%nat
+          then wok [wbool (explain (S (length real')) (variant_segments lines) (flow_trace lines) real');
+                    wbool (explain_p true (S (length real')) (variant_segments lines) (flow_trace lines) real')]
+          else wbad
       | None => wbad end
   | WL [WI 6; l] =>
       match un_text l with
